@@ -380,6 +380,12 @@ func (c *Ctx) sortOf(t types.Type) Sort {
 		// array values are opaque
 		n := "Arr_" + sanitize(typeString(t))
 		c.decl("sort:"+n, fmt.Sprintf("(declare-sort %s 0)", q(n)))
+		if u.Len() == 0 {
+			// a zero-length array type has a single value
+			z := q("zero_" + sanitize(string(q(n))))
+			c.decl("zero:zero_"+sanitize(string(q(n))), fmt.Sprintf("(declare-const %s %s)", z, q(n)))
+			c.decl("unit:"+n, fmt.Sprintf("(assert (forall ((x!z %s)) (= x!z %s)))", q(n), z))
+		}
 		return Sort(q(n))
 	case *types.Tuple:
 		return "Tuple"
@@ -548,6 +554,12 @@ func (c *Ctx) rangeFact(term string, t types.Type, depth int) string {
 			return fmt.Sprintf("(and (<= 0 (blen %s)) (<= (blen %s) 4611686018427387904))", term, term)
 		}
 	case *types.Slice:
+		if !c.bv {
+			if eb, ok := u.Elem().Underlying().(*types.Basic); !ok || (eb.Kind() != types.Uint8 && eb.Kind() != types.Int8 && eb.Kind() != types.Bool) {
+				// elements of two or more bytes: fewer than 2^60 of them fit any address space
+				return fmt.Sprintf("(and (<= 0 (sl_off %s)) (<= 0 (sl_len %s)) (<= (sl_len %s) (sl_cap %s)) (<= (sl_cap %s) 1152921504606846976) (=> (= (sl_arr %s) nil) (= (sl_cap %s) 0)))", term, term, term, term, term, term, term)
+			}
+		}
 		if c.bv {
 			return fmt.Sprintf("(and (bvsle (_ bv0 64) (sl_off %s)) (bvsle (_ bv0 64) (sl_len %s)) (bvsle (sl_len %s) (sl_cap %s)) (bvslt (sl_cap %s) (_ bv4611686018427387904 64)) (bvslt (sl_off %s) (_ bv4611686018427387904 64)) (=> (= (sl_arr %s) nil) (= (sl_cap %s) (_ bv0 64))))", term, term, term, term, term, term, term, term)
 		}
